@@ -138,11 +138,9 @@ impl ZbsdiffBuilder {
                     extra_data.push(self.new_data[new_pos + i]);
                 }
 
-                control_entries.push(ControlEntry::new(
-                    0,
-                    extra_chunk_size as i64,
-                    old_pos as i64, // Seek to maintain position tracking
-                ));
+                // Seek offsets are relative to the current old position, which
+                // extra data does not advance, so no seek is needed here.
+                control_entries.push(ControlEntry::new(0, extra_chunk_size as i64, 0));
 
                 new_pos += extra_chunk_size;
                 // old_pos stays the same for extra data
